@@ -215,6 +215,10 @@ func (t *vU2FToken) registration() *u2f.Registration {
 }
 
 func (t *vU2FToken) signResponse(challengeB64 string) u2f.SignResponse {
+	return t.signResponseFor(challengeB64, t.handle)
+}
+
+func (t *vU2FToken) signResponseFor(challengeB64 string, handle []byte) u2f.SignResponse {
 	t.counter++
 	cd := t.clientData("navigator.id.getAssertion", challengeB64)
 	app := sha256.Sum256([]byte(u2fAppID))
@@ -222,7 +226,27 @@ func (t *vU2FToken) signResponse(challengeB64 string) u2f.SignResponse {
 	raw := []byte{0x01, byte(t.counter >> 24), byte(t.counter >> 16), byte(t.counter >> 8), byte(t.counter)}
 	tbs := append(append(append([]byte{}, app[:]...), raw...), ch[:]...)
 	sd := append(raw, vASN1Sig(t.key, tbs)...)
-	return u2f.SignResponse{KeyHandle: vB64u(t.handle), SignatureData: vB64u(sd), ClientData: vB64u(cd)}
+	return u2f.SignResponse{KeyHandle: vB64u(handle), SignatureData: vB64u(sd), ClientData: vB64u(cd)}
+}
+
+// webauthnAssertion: the same token asked through the WebAuthn login API (a U2F-registered credential used with the
+// appid extension): authenticator data = hash of the application id, user-present flag, counter; the signature covers
+// authenticator data and the hash of the client data
+func (t *vU2FToken) webauthnAssertion(challengeB64url string) []byte {
+	return t.webauthnAssertionFor(challengeB64url, t.handle)
+}
+
+// ... naming a key handle of the caller's choice (key handles are public: the server lists them in its challenge)
+func (t *vU2FToken) webauthnAssertionFor(challengeB64url string, handle []byte) []byte {
+	t.counter++
+	cd, _ := json.Marshal(map[string]string{"type": "webauthn.get", "challenge": challengeB64url, "origin": u2fAppID})
+	app := sha256.Sum256([]byte(u2fAppID))
+	ad := append(append([]byte{}, app[:]...), 0x01, byte(t.counter>>24), byte(t.counter>>16), byte(t.counter>>8), byte(t.counter))
+	ch := sha256.Sum256(cd)
+	sig := vASN1Sig(t.key, append(append([]byte{}, ad...), ch[:]...))
+	out, _ := json.Marshal(map[string]interface{}{"id": vB64u(handle), "rawId": vB64u(handle), "type": "public-key",
+		"response": map[string]string{"clientDataJSON": vB64u(cd), "authenticatorData": vB64u(ad), "signature": vB64u(sig)}})
+	return out
 }
 
 // ---------------------------------------------------------------------------
